@@ -30,6 +30,21 @@ func buildPoolsGen(r *gen.Rng, s *Session) {
 		}
 	}
 	s.Docs = p.Docs
+	if len(p.DirCuts) == len(s.Schemas) && len(p.DirCuts) > 0 {
+		// every schema of the pool arrives as a BuiltIn prelude of directive
+		// definitions plus the rest, the way code generators hand their own
+		// directives in
+		s.Splits = nil
+		for _, c := range p.DirCuts {
+			if c > 0 {
+				s.Splits = append(s.Splits, []int{c})
+			} else {
+				s.Splits = append(s.Splits, nil)
+			}
+		}
+		s.SplitBuiltIn = true
+		s.SplitSameName = false
+	}
 }
 
 // c11PoolGen: one generated schema that loads, and documents over it, most of
